@@ -104,6 +104,14 @@ class Env:
         return None
 
     def call(s, M, st, th, callee, args):
+        # formatting is never the subject: format!() yields a fresh string about which nothing is known (so a property that needs
+        # a particular text can be falsified by it, and nothing is proved from it)
+        if callee.startswith(('core::fmt::rt::', 'Arguments::', 'std::fmt::Arguments', 'core::fmt::Arguments', 'fmt::Arguments')):
+            return s.ret(st, Opaque('fmt'))
+        if callee in ('format', 'std::fmt::format', 'alloc::fmt::format', 'fmt::format') or callee.startswith(('format::', 'alloc::fmt::format::', 'std::fmt::format::')):
+            import z3 as _z3
+            n = st.gget('n_formatted', 0); st.gset('n_formatted', n + 1)
+            return s.ret(st, Agg('String', [_z3.String(f'formatted_{n}')]))
         m = s._num_re.match(callee)
         if m:
             r = s.num_method(M, st, m.group(1), m.group(2), args)
@@ -395,11 +403,26 @@ class Env:
             if isinstance(c, Agg) and c.ty in s.SHIM_ITERS: return s.ret(st, v)        # &mut I is an iterator itself
             if isinstance(c, Agg) and c.ty in ('Vec', 'VecDeque', 'array'): return s.ret(st, Agg('SliceIter', [v, I(0)]))
         if isinstance(v, Agg) and v.ty in ('Vec', 'VecDeque', 'array'): return s.ret(st, Agg('IntoIter', [Agg('Vec', v.items())]))
-        if isinstance(v, Agg) and v.ty in ('Drain', 'IntoIter', 'SliceIter', 'Range'): return s.ret(st, v)
+        if isinstance(v, Agg) and v.ty in ('Drain', 'IntoIter', 'SliceIter', 'Range', 'RangeInclusive'): return s.ret(st, v)
         return None
+
+    def p_RangeInclusive__new(s, M, st, th, ci, a): return s.ret(st, Agg('RangeInclusive', [a[0], a[1], False]))
+    def d_RangeInclusive(s, M, st, th, v): return True
 
     def t_Iterator__next(s, M, st, th, ci, a):
         it = s.tgt(M, st, a[0])
+        if isinstance(it, Agg) and it.ty == 'RangeInclusive':
+            if it.f[2] is True: return s.ret(st, NONE)
+            outs = []
+            for st2, more in M.fork_on(st, binop('Lt', it.f[0], it.f[1])):
+                cur = M.deref(st2, a[0])
+                if more:
+                    M.write(st2, a[0], cur.with_field(0, binop('Add', cur.f[0], I(1, width(cur.f[0]))))); outs.append(('ret', st2, some(cur.f[0])))
+                else:
+                    for st3, last in M.fork_on(st2, binop('Eq', it.f[0], it.f[1])):
+                        cur = M.deref(st3, a[0]); M.write(st3, a[0], cur.with_field(2, True))
+                        outs.append(('ret', st3, some(cur.f[0]) if last else NONE))
+            return outs
         if isinstance(it, Agg) and it.ty == 'Range':
             outs = []
             for st2, more in M.fork_on(st, binop('Lt', it.f[0], it.f[1])):
@@ -486,6 +509,7 @@ class Env:
 
     def p___identity(s, M, st, th, ci, a): return s.ret(st, a[0])            # std::convert::identity
     p_convert__identity = p___identity
+    p___must_use = p___identity; p_hint__must_use = p___identity; p___black_box = p___identity; p_hint__black_box = p___identity
     def p___panicking(s, M, st, th, ci, a): return s.ret(st, bool(th.panicking))       # std::thread::panicking
     p_thread__panicking = p___panicking
     def p_mem__forget(s, M, st, th, ci, a): return s.ret(st, UNIT)
